@@ -4,7 +4,7 @@ action for every result and report it truthfully.
 (S) spec/InboundAuth.tla: input tables (SPF: every evaluation outcome x DNS situation x configured
     action x enforce_early x null/non-null sender x DMARC situation of the From domain, spellings
     of the MAIL FROM domain, placement of the check, kinds of connection; DKIM: every sequence of
-    up to MaxSig real signatures of 14 kinds x action x fail_open x required_fields; the
+    up to MaxSig real signatures of 16 kinds x action x fail_open x required_fields; the
     composition check.spf + check.dkim + DMARC), the property as named predicates (Prop), the
     documented procedure (Rule) and the code's deviations as named switches (RuleD).
 (T) TLC enumerates every row, checks Prop(in, Rule(in)) and two theorems about the rule, prints the
@@ -137,7 +137,11 @@ def run(ctx, replay):
     # ---- (B) the real code ------------------------------------------------------
     binary = ctx.build_harness("inboundauthcheck")
     items = [{"id": row["id"], "in": row["in"], "world": row["world"]} for row in sel]
-    events = ctx.run_shards(binary, items, timeout=1500)
+    # the check instances of one configuration serve many rows one after the other: a seeded order
+    # makes every run a different history for them (a verdict must not depend on earlier messages)
+    if not replay:
+        ctx.rng.shuffle(items)
+    events = ctx.run_shards(binary, items, timeout=1500, env_extra={"VERIF_SHOWCFG": "1"} if replay else None)
     events = [e for e in events if e["e"] == "Row"]
     ctx.log("real code answered %d rows" % len(events))
     if len(events) != len(sel):
@@ -251,11 +255,28 @@ def run(ctx, replay):
                     if k["example"] is None:
                         k["example"] = {"in": row["in"], "out": outs, "expected": row["exp"],
                                         "violated": sorted(v["viol"]), "err": o.get("err", "")[:200]}
+                        dump = os.environ.get("VERIF_X03_DUMP_FINDING_ROWS")
+                        if dump:      # reproduction files for extensions/findings/*.md
+                            os.makedirs(dump, exist_ok=True)
+                            with open(os.path.join(dump, e["id"] + ".json"), "w") as f:
+                                json.dump({"property": PID, "row": {k2: row[k2] for k2 in ("in", "exp", "world")}}, f)
         else:
             drift += 1
             if drift <= 10:
                 print("DRIFT property=X03 row=%d in=%s out=%s expected=%s" % (
                     t, short(row["in"]), json.dumps(outs), json.dumps(row.get("exp"))))
+    if replay:
+        o = events[0]["out"]
+        v = verdicts.get(events[0]["t"])
+        print("REPLAY ext=X03 configuration:\n" + events[0].get("cfgText", ""))
+        print("REPLAY ext=X03 real code: %s" % json.dumps({k: o[k] for k in ("cfg", "stage", "class", "code", "enh", "arRaw", "err")}))
+        print("REPLAY ext=X03 documented: %s" % json.dumps(rows[0].get("exp")))
+        print("REPLAY ext=X03 verdict of TLC: %s" % (
+            "conforms to the documented rule" if v is None else
+            "violated=%s differs-from-documented-rule=%s explained-by-deviations=%s" % (
+                sorted(v["viol"]), v["drift"],
+                [d for d in sorted(sorted(d) for d in v["devs"])
+                 if len(d) == min([len(x) for x in v["devs"]] or [0])])))
     for fid, k in sorted(finding_rows.items()):
         print("EXT-FINDING: ext=%s %s %s (%d rows, %d violating)" % (PID, fid, k["what"], k["rows"], k["violating_rows"]))
     if weird:
@@ -270,12 +291,13 @@ def run(ctx, replay):
         key = row["in"]["tab"] + "/" + row["in"]["sub"]
         subs[key] = subs.get(key, 0) + 1
     ctx.cov["rows_by_table"] = subs
-    ctx.cov["rule"] = ("rows = states of InboundAuth.tla (one per input; distinct by construction): spf/main (14 outcome x DNS "
-                       "situations x 7 actions x enforce_early absent/no/yes x plain/null sender x 11 DMARC situations), "
+    ctx.cov["rule"] = ("rows = states of InboundAuth.tla (one per input; distinct by construction): spf/main (18 outcome x DNS "
+                       "situations x 8 actions x enforce_early absent/no/yes x plain/null sender x 11 DMARC situations), "
                        "spf/sender (upper-case and U-label MAIL FROM domains), spf/place (source / destination block), "
-                       "spf/conn (IPv6, no IP, no connection), dkim/one (no or one signature of 14 kinds x 7 actions x "
-                       "fail_open x required_fields), dkim/two (every ordered pair), dkim/three (thorough: every multiset "
-                       "of three), dkim/doc (the documented example block), joint (check.spf + check.dkim + dmarc yes); "
+                       "spf/conn (IPv6, no IP, no connection), dkim/one (no or one signature of 16 kinds x 8 actions x "
+                       "fail_open x required_fields), dkim/two (every ordered pair), dkim/three (thorough: every ordered "
+                       "triple), dkim/doc (the documented example block), */forged (client-supplied Authentication-Results "
+                       "fields), joint (check.spf + check.dkim + dmarc yes); "
                        "every row is run through the real code in both tiers; non-trivial = not an SPF pass / not only "
                        "valid signatures")
     ctx.cov["violated_predicates"] = preds
@@ -328,7 +350,7 @@ META = {
                  "4xx reply on a temporary error unless fail_open is on (then the temporary error does not get the message "
                  "refused), accepts the documented configuration block, and the Authentication-Results field lists every "
                  "signature with its d= and its true result (pass only for a valid signature covering the required fields).",
-    "text": "TLC enumerates the input tables of InboundAuth.tla (18k rows quick, 28k thorough), checks the property predicates "
+    "text": "TLC enumerates the input tables of InboundAuth.tla (24k rows quick, 73k thorough), checks the property predicates "
             "and two theorems on the documented rule for every row, and evaluates the same predicates on what the real "
             "check.spf / check.dkim modules did for every row inside a real message pipeline (stage, SMTP reply, quarantine "
             "flag, Authentication-Results as the delivery target saw them).",
